@@ -1,2 +1,12 @@
 """property id -> suites, evidence rule, trusted base additions"""
-PROPS: dict = {}
+from suites import props_tree
+
+RULE_TREE = ("random operation histories (weighted words over fit / refine / recluster / set_merge / setters / "
+             "delete_internal_nodes / reset / malformed fit; feature counts 1..24, 63, 64, 65, 100, 256; prototype+noise, "
+             "duplicate, all-zero/all-one and Bernoulli rows; all six criteria) executed on the real estimator and on the "
+             "Lean model, compared after every operation; non-trivial = distinct history whose final state has at least one "
+             "multi-member cluster (and, for structure suites, a tree of height >= 1)")
+
+PROPS: dict = {
+    "C01": {"suites": [props_tree.c01], "rule": RULE_TREE},
+}
